@@ -126,16 +126,20 @@ DropForward(xi, m) ==
      ELSE /\ m = [i \in 1..Len(Inputs[xi]) |-> 1]          \* eval: the identity
           /\ mask' = <<[i \in 1..Len(m) |-> Q1]>>
           /\ out' = <<[i \in 1..Len(Inputs[xi]) |-> QI(Inputs[xi][i])]>>
-  /\ UNCHANGED <<training, rm, rv, nbt, fwds, bwout, ptraining>>
+  /\ fwds' = Append(fwds, mask'[1])                       \* every forward pass keeps ITS multiplier for its own backward pass
+  /\ UNCHANGED <<training, rm, rv, nbt, bwout, ptraining>>
   /\ hist' = Rec([a |-> "fwd", x |-> xi, m |-> m])      \* the mask chosen is part of the behaviour (the driver matches it)
 
-\* backward of the last forward goes through the same mask
-DropBackward(gi) ==
-  /\ Layer = "drop" /\ "bwd" \in Acts /\ CanAct /\ mask # None /\ gi \in 1..Len(GradsIn)
-  /\ Len(GradsIn[gi]) = Len(mask[1])
-  /\ out' = <<[i \in 1..Len(GradsIn[gi]) |-> QMul(QI(GradsIn[gi][i]), mask[1][i])]>>   \* whatever the mode is now
-  /\ UNCHANGED <<training, rm, rv, nbt, mask, fwds, bwout, ptraining>>
-  /\ hist' = Rec([a |-> "bwd", g |-> gi])
+\* backward of the k-th forward pass goes through the mask of THAT pass - whatever the mode is now and whatever forward
+\* passes (of the same or another shape) came after it
+DropBackward(gi, k) ==
+  /\ Layer = "drop" /\ "bwd" \in Acts /\ CanAct /\ gi \in 1..Len(GradsIn) /\ k \in 1..Len(fwds)
+  /\ k >= Len(fwds) - 1                                   \* the last two passes (bounds the enumeration)
+  /\ Len(GradsIn[gi]) = Len(fwds[k])
+  /\ out' = <<[i \in 1..Len(GradsIn[gi]) |-> QMul(QI(GradsIn[gi][i]), fwds[k][i])]>>
+  /\ mask' = <<fwds[k]>>                                  \* (`mask` = the multiplier `out` went through: DropValues)
+  /\ UNCHANGED <<training, rm, rv, nbt, fwds, bwout, ptraining>>
+  /\ hist' = Rec([a |-> "bwd", g |-> gi, k |-> k])
 
 Next ==
   \/ \E tr \in BOOLEAN, on \in {"layer", "root"} : SetMode(tr, on)
@@ -143,7 +147,7 @@ Next ==
   \/ \E bi \in 1..Len(Batches) : BNForward(bi)
   \/ \E k \in 1..Len(fwds) : BNBackward(k)
   \/ \E xi \in 1..Len(Inputs) : \E m \in Masks(Len(Inputs[xi])) : DropForward(xi, m)
-  \/ \E gi \in 1..Len(GradsIn) : DropBackward(gi)
+  \/ \E gi \in 1..Len(GradsIn), k \in 1..Len(fwds) : DropBackward(gi, k)
 
 -----------------------------------------------------------------------------
 \* eval never changes the running statistics; a training forward moves them exactly once
@@ -151,7 +155,7 @@ EvalFreezesStats == [][~training => (rm' = rm /\ rv' = rv /\ nbt' = nbt) \/ (\E 
 CounterStepsByOne == [][nbt' = nbt \/ nbt' = nbt + 1]_vars
 \* survivors are scaled by exactly 1/(1-p), dropped elements are exactly zero
 DropValues ==
-  (Layer = "drop" /\ out # None /\ mask # None) =>
+  (Layer = "drop" /\ out # None /\ mask # None /\ Len(out[1]) = Len(mask[1])) =>
      \A i \in 1..Len(out[1]) : mask[1][i] = Q0 => out[1][i] = Q0
 
 Emit == Record => PrintT(ToJson([hist |-> hist, obs |-> Obs]))
